@@ -22,4 +22,8 @@ for r in reps:
         print("      !! SUSPICIOUS:", sm)
     for m in r.get("models", [])[:int(os.environ.get("SHOW_MODELS", "1"))]:
         print("      model:", json.dumps(m)[:int(os.environ.get("MODEL_CHARS", "500"))])
+if os.environ.get("PROVE_ONLY_OUT"):
+    json.dump([{"function": r["function"], "status": r["status"],
+                "obligations": [{"name": o["name"], "status": o["status"]} for o in r.get("obligations", [])]} for r in reps],
+              open(os.environ["PROVE_ONLY_OUT"], "w"))
 print(f"wall {time.time() - t0:.1f}s")
